@@ -157,6 +157,13 @@ def _scenario(kind, n, c, p_size, bad, ev, want):
 
 
 def _go(code, want):
+    try:
+        return _go1(code, want)
+    except Prune:
+        return True
+
+
+def _go1(code, want):
     # NPART = 5 * (NMAX + 1): job kind x input length; everything else are digits of one solver integer
     nd = NDCode(code)
     kind = KINDS[PART % 5]
